@@ -232,9 +232,23 @@ def run(ctx):
     if cs is None:
         raise AnalysisError('DataflowAnalysisAttacher.visit_CallStatement vanished')
     filt = {}
+    role = {}       # local name -> 'outvals' (feeds the defines of the call) / 'invals' (feeds the uses)
+    cands = [n.targets[0].id for n in ast.walk(cs.node) if isinstance(n, ast.Assign) and isinstance(n.value, ast.ListComp)
+             and len(n.targets) == 1 and isinstance(n.targets[0], ast.Name) and 'arg_iter' in ast.unparse(n.value.generators[0].iter)]
+    vn_ = [c_ for c_ in ast.walk(cs.node) if isinstance(c_, ast.Call) and X.dotted_attr(c_.func) == 'self.visit_Node']
+    dname = next((ast.unparse(k.value) for c_ in vn_ for k in c_.keywords if k.arg == 'defines_symbols'), 'defines')
+    uname = next((ast.unparse(k.value) for c_ in vn_ for k in c_.keywords if k.arg == 'uses_symbols'), 'uses')
+    for nm in cands:
+        for lp_ in ast.walk(cs.node):
+            if isinstance(lp_, ast.For) and ast.unparse(lp_.iter) == nm and any(
+                    isinstance(a_, ast.AugAssign) and ast.unparse(a_.target) == dname for a_ in ast.walk(lp_)):
+                role[nm] = 'outvals'
+        if nm not in role and any(isinstance(a_, ast.AugAssign) and ast.unparse(a_.target) == uname
+                                  and any(isinstance(x_, ast.Name) and x_.id == nm for x_ in ast.walk(a_.value)) for a_ in ast.walk(cs.node)):
+            role[nm] = 'invals'
     for n in ast.walk(cs.node):
         if isinstance(n, ast.Assign) and isinstance(n.value, ast.ListComp) and len(n.targets) == 1 \
-                and isinstance(n.targets[0], ast.Name) and n.targets[0].id in ('outvals', 'invals'):
+                and isinstance(n.targets[0], ast.Name) and n.targets[0].id in role:
             comp = n.value.generators[0]
             if 'arg_iter' not in ast.unparse(comp.iter) or len(comp.ifs) != 1:
                 raise AnalysisError('visit_CallStatement: unrecognised intent filter form')
@@ -245,7 +259,7 @@ def run(ctx):
             vals = m.const(cs.module, test.comparators[0])
             if vals is NOFOLD:
                 raise AnalysisError('visit_CallStatement: cannot fold intent tuple')
-            filt[n.targets[0].id] = {str(v).lower() for v in vals}
+            filt[role[n.targets[0].id]] = {str(v).lower() for v in vals}
     if set(filt) != {'outvals', 'invals'}:
         raise AnalysisError('visit_CallStatement: outvals/invals filters not found')
     domain = {'none', 'in', 'out', 'inout'}      # str(None).lower() == 'none' for a dummy without INTENT
@@ -268,8 +282,8 @@ def run(ctx):
         if isinstance(n, ast.If) and ast.unparse(n.test) == 'o.routine' and n.orelse:
             src = '\n'.join(ast.unparse(s) for s in n.orelse)
             taint, flows = X.attr_flows(ast.Module(body=n.orelse, type_ignores=[]), 'o')
-            d = taint.get('defines', set())
-            u = taint.get('uses', set())
+            d = taint.get(dname, set())
+            u = taint.get(uname, set())
             orelse_ok = {'arguments', 'kwarguments'} <= d and {'arguments', 'kwarguments'} <= u
     if orelse_ok:
         ctx.judge('R3', 'visit_CallStatement:unenriched-branch')
@@ -333,13 +347,15 @@ def run(ctx):
         raise AnalysisError('visit_CallStatement: `if o.routine` not found')
     enr = ast.Module(body=ifn[0].body, type_ignores=[])
     # provenance over local names: which of {outvals, invals} a name derives from
-    prov = {'outvals': {'outvals'}, 'invals': {'invals'}}
+    inv_role = {v_: k_ for k_, v_ in role.items()}
+    on_, in_n = inv_role.get('outvals', 'outvals'), inv_role.get('invals', 'invals')
+    prov = {on_: {'outvals'}, in_n: {'invals'}}
     changed = True
     while changed:
         changed = False
         for n in ast.walk(enr):
             pairs = []
-            if isinstance(n, ast.Assign) and isinstance(n.targets[0], ast.Name) and n.targets[0].id not in ('outvals', 'invals'):
+            if isinstance(n, ast.Assign) and isinstance(n.targets[0], ast.Name) and n.targets[0].id not in (on_, in_n):
                 pairs.append((n.targets[0].id, n.value))
             elif isinstance(n, ast.comprehension):
                 for t in ast.walk(n.target):
@@ -362,7 +378,7 @@ def run(ctx):
         if src <= {'outvals'} and src:
             ctx.judge('R6', f'kill set {kname}', facts={'derives_from': sorted(src)})
         else:
-            ctx.violation('R6', f'visit_CallStatement:kill-set:{kname}', cs.where,
+            ctx.violation('R6', 'visit_CallStatement:kill-set:dims', cs.where,
                           f'symbols removed from the defines of an enriched call (`{kname}`) derive from {sorted(src)}: a subscript of an '
                           f'intent(in) actual that is also passed to an out/inout dummy is dropped from defines_symbols')
 
